@@ -30,7 +30,7 @@ pub fn run(run: &mut Run, mode: Mode) {
         "{which}: StateAnimatorBuilder-built animators over a 5-state enum; ALL histories of length {depth} over the alphabet \
         {{advance 0, 1/512, 1/8, 1, 7.5; set_state A..E}} on 5 hand-picked configurations (finite, delayed, Times(n), \
         reversing, infinite, merged, 100%-only, 0%-only, sparse, very slow (cycles of 2^14..2^18 s), un-animated states) plus seed-dependent random \
-        configurations, and random histories of length 30-200 on random configurations (6 shapes, all 29 easings) each \
+        configurations, and random histories of length 30-200 on random configurations (7 shapes, all 29 easings) each \
         followed by probe suffixes set_state(s);advance(d) for every s; {}; non-trivial = a set_state to a different state \
         (C04) / an operation on an animated state (C05); distinct = (transition kind, source/target state kind, phase of \
         the source timeline, zero-length advance interleaved?, configuration)",
@@ -72,7 +72,7 @@ pub fn run(run: &mut Run, mode: Mode) {
         for i in my_cases(rc, STREAM_RND, n_rnd, w, nw) {
             guarded(acc, which, STREAM_RND, i, |acc| {
                 let mut r = Rng::derive(seed, STREAM_RND, i);
-                let shape = r.usize(6);
+                let shape = r.usize(crate::shapes::N_SHAPES);
                 crate::with_shape!(shape, random_case(&mut r, acc, mode, i, verbose));
             });
         }
